@@ -25,7 +25,7 @@ TRUSTED = ["block specification Spec/BlockSpec.v (written from doc/lz4_Block_for
            "hand-written model Model/Dec.v, Model/DecApi.v tied by image comparison only"]
 ASSUMPTIONS = ["buffers do not wrap the address space", "fixed-size LZ4_memcpy is load-then-store"]
 
-DICT_SIZES = [0, 0, 1, 7, 8, 100, 4000, 65535, 65536, 70000]
+DICT_SIZES = [0, 0, 1, 7, 8, 100, 4000, 65534, 65535, 65536, 70000]
 
 def build(tier):
     return {"libs": {"fast1": build_lib("dec_fast1", flags=["-DLZ4_FAST_DEC_LOOP=1"]),
